@@ -103,7 +103,11 @@ def gen_case(rng, tier):
     nops = rng.randint(1, 25)
     for _ in range(nops):
         r = rng.random()
-        if r < 0.28 or not ops:
+        if r < 0.04 and ops:
+            # several appending writes through writelines(), from a list or from a one-shot generator
+            ops.append(['writelines', [_chunk(rng, text, rng.choice([0, 1, 3, 7])) for _ in range(rng.randint(0, 4))],
+                        rng.choice(['list', 'gen', 'tuple'])])
+        elif r < 0.28 or not ops:
             n = rng.choice([0, 1, 2, 3, 5, 9, 17]) if rng.random() < 0.9 else rng.randint(20, 60)
             ops.append(['write', _chunk(rng, text, n)])
         elif r < 0.42:
@@ -164,8 +168,14 @@ def _gen_mfr(rng):
             ops.append(['read', None])
         else:
             ops.append(['seek0'])
-    return {'mode': 'mfr-text' if text else 'mfr-bytes', 'content': content, 'cuts': cuts, 'kinds': kinds,
+    case = {'mode': 'mfr-text' if text else 'mfr-bytes', 'content': content, 'cuts': cuts, 'kinds': kinds,
             'ops': ops, 'bufsize': rng.choice([1, 8, 8192])}
+    if rng.random() < 0.2 and k <= 5:
+        # the members were just written/partly read by the caller: they are not at position 0, and the
+        # documented way to start over is seek(0)
+        case['member_pos'] = [rng.choice(['end', 'end', 'mid', 0]) for _ in range(k)]
+        case['ops'] = [['seek0']] + ops
+    return case
 
 
 def fixed_cases(tier):
@@ -208,6 +218,10 @@ def _do(f, op, text, ref_len):
         if name == 'write':
             data = op[1] if text else bytes.fromhex(op[1])
             return ('ok', f.write(data))
+        if name == 'writelines':
+            items = [x if text else bytes.fromhex(x) for x in op[1]]
+            arg = items if op[2] == 'list' else (tuple(items) if op[2] == 'tuple' else (x for x in items))
+            return ('ok', f.writelines(arg))
         if name == 'read':
             return ('ok', f.read(op[1]) if op[1] != -1 else f.read())
         if name == 'readline':
@@ -261,7 +275,7 @@ def run_case(case):
         for i, op in enumerate(case['ops']):
             name = op[0]
             ref_len = len(ref.getvalue())
-            if name == 'write' and ref.tell() != ref_len:
+            if name in ('write', 'writelines') and ref.tell() != ref_len:
                 continue                  # only appending writes are in the statement
             if name == 'write' and text and any(ord(ch) > 127 or ch == '\r' for ch in op[1]):
                 special = True
@@ -288,7 +302,7 @@ def run_case(case):
                     rp['rolled_at'] = i
                     if i > 0:
                         out.probe('rollover_mid_history')
-                if name == 'write':
+                if name in ('write', 'writelines'):
                     if got[0] != 'ok':
                         return _fail(out, log, 'spooled-diverges', i, case, ri, op, got, want, steps)
                     if ri and got != first_write:
@@ -362,6 +376,12 @@ def _run_mfr(case):
             m = (iou.SpooledStringIO if text else iou.SpooledBytesIO)(max_size=1 if kind == 'spooled-rolled' else 1 << 40)
             m.write(part)
             m.seek(0)
+        mp = (case.get('member_pos') or [])
+        where = mp[len(members)] if len(members) < len(mp) else 0
+        if where == 'end':
+            m.seek(len(part))
+        elif where == 'mid':
+            m.seek(len(part) // 2)
         members.append(m)
     pos = 0
     steps = 0
